@@ -19,6 +19,7 @@
 (* scan event   [op |-> "scan", results, yielded, err, sticky]  extension:  *)
 (*   the Scanner wrappers over the same file must yield the leading records *)
 (*   of results and report an error iff a Read failed (drift only).         *)
+(* alnread / alnwrite events: extension, alignio.Reader/Writer (drift only).*)
 (* big event    [op |-> "big", valid, want, got]  record digests of a file  *)
 (*   too large to be judged byte by byte.                                   *)
 (***************************************************************************)
@@ -34,6 +35,14 @@ IsMark(x) == "kind" \in DOMAIN x /\ x.kind \in {"err", "panic", "hang", "unspec"
 
 \* extension: seqio.Scanner / featio.Scanner over the same reader (Scanner.tla is the state machine)
 ScanOps == INSTANCE ScannerOps WITH IsErr <- IsMark
+\* extension: alignio.Reader over the same reader (AlignIO.tla is the state machine)
+AlnOps == INSTANCE AlignIOOps WITH IsErr <- IsMark
+AlnReadAgrees(e) ==
+  LET want == AlnOps!AlignReads(e.results, Len(e.calls)) IN
+  /\ e.status = ""
+  /\ \A k \in 1..Len(e.calls) :
+        IF want[k][1] = "err" THEN e.calls[k].kind = "err"
+        ELSE e.calls[k].kind = "multi" /\ e.calls[k].rows = want[k][2]
 ScanAgrees(e) ==
   LET o == ScanOps!ScanOutcome(e.results) IN
   e.status = "" /\ e.yielded = o.yielded /\ e.err = o.err /\ e.sticky
@@ -85,6 +94,12 @@ Step ==
        [] e.op = "scan" ->
             \* outside C01-C04: a disagreement is model drift, never a violation
             /\ drift' = IF ScanAgrees(e) THEN drift ELSE Append(drift, l)
+            /\ UNCHANGED fails
+       [] e.op = "alnread" ->
+            /\ drift' = IF AlnReadAgrees(e) THEN drift ELSE Append(drift, l)
+            /\ UNCHANGED fails
+       [] e.op = "alnwrite" ->
+            /\ drift' = IF e.err = "" /\ e.text = WriteFile(e.fmt, e.recs, e.cfg) /\ e.n = Len(e.text) THEN drift ELSE Append(drift, l)
             /\ UNCHANGED fails
        [] e.op = "bigmut" ->
             \* a large damaged file: only totality is judged
